@@ -504,12 +504,18 @@ def model(ctx, cases, outs):
                 e, a = _marg(sub)
                 jobs[e].append(a); where.append((e, k, n))
     res = {e: ctx.run_model(e, a) if a else [] for e, a in jobs.items()}
+    # inside the bound the as-written and the exact model must agree (proved per label: C02_wrap_transfer); sample it
+    small = [k for k, c in enumerate(cases) if c["fn"] == "ijv" and not _big(c)][::7]
+    ex = ctx.run_model("entry_hull_ijv", [[cases[k]["ijv"], cases[k]["idx"]] for k in small]) if small else []
+    exact_of = dict(zip(small, ex))
     pos = {e: 0 for e in jobs}
     mouts = [{"main": None, "alone": {}} for _ in cases]
     for e, k, n in where:
         r = res[e][pos[e]]; pos[e] += 1
         if n is None:
             mouts[k]["main"] = r
+            if k in exact_of and exact_of[k] != r:
+                mouts[k]["main"] = {"model_error": "as-written and exact model differ inside the bound: %s vs %s" % (str(r)[:120], str(exact_of[k])[:120])}
         else:
             mouts[k]["alone"][n] = r
     return mouts
